@@ -1062,7 +1062,7 @@ TEMPLATES = [("edit_levinson", t_edit_levinson, 5), ("types_stable", t_types, 5)
 
 def generate(rng, tier, scale=1):
     quick = tier == "quick"
-    n = (260 if quick else 5000) * scale
+    n = (260 if quick else 3500) * scale
     bag = [t for t in TEMPLATES for _ in range(t[2])]
     cases = []
     for i in range(n):
